@@ -222,3 +222,20 @@ Proof.
     pose proof (A_diag_pos (length Zp) pp Zp (center y) ridge eq_refl Lc i Hr Hi). fold A in H. lra. }
   rewrite select_scatter by exact Lu. exists k. repeat split; try lia; assumption.
 Qed.
+
+(** "n > p" alone does not give solved normal equations: with two identical polymorphic markers (n = 5 > p = 2) and a ridge
+    parameter of the size the ML step produces, the model's fit is still far from the solution when the loop is cut by its
+    iteration limit (here 12 sweeps; the implementation's limit of 1000 sweeps is hit in the same way, finding C04-gs-maxiter,
+    evaluated on the implementation's output in every run) *)
+Lemma rr_normal_equations_refuted : exists p (Zg : zmat) y ridge atol maxiter beta u,
+  (length (filter (fun x => x) (poly_mask p Zg)) < length Zg)%nat /\ 0 < ridge /\ 0 < atol /\ (0 < maxiter)%nat /\
+  rr_fit1 p Zg y ridge atol maxiter = Some (beta, u) /\
+  let mask := poly_mask p Zg in
+  let Zp := map (fun r => select mask (map inject_Z r)) Zg in
+  let pp := length (filter (fun x => x) mask) in
+  resid_ok (ztz_ridge pp Zp ridge) (zty pp Zp (center y)) (select mask u) atol = false.
+Proof.
+  exists 2%nat, [[0;0];[1;1];[2;2];[1;1];[0;0]]%Z, [1; 5#2; 3; 1#2; -1], (1 # 131072), (1 # 100000000), 12%nat.
+  eexists. eexists. split; [vm_compute; lia|]. split; [reflexivity|]. split; [reflexivity|]. split; [lia|].
+  split; [vm_compute; reflexivity|]. vm_compute. reflexivity.
+Qed.
